@@ -34,6 +34,7 @@ def main():
         if not args.pid:
             ap.error('property id required')
         pid = args.pid.upper()
+        os.environ['VERIF_TIER'] = args.tier
         mod = importlib.import_module(pid.lower())
         t0 = time.time()
         rep = lib.Reporter(pid)
